@@ -112,7 +112,7 @@ def run(ctx):
     def rpat():
         segs = []
         for _ in range(rnd.randint(1, 3)):
-            segs.append(rnd.choice(keys + ["*", "a*", "?", "*b", "k?", "x|*"]))
+            segs.append(rnd.choice(keys + ["*", "a*", "?", "*b", "k?", "x|*", "[ab]", "[!a]", "s[x*]", "a[b/]*", "[ab]b"]))
         return segs
     for _ in range(2500 if quick else 60000):
         old = rdoc(2)
